@@ -118,6 +118,32 @@ def run(ctx):
                     should = member in ("FULL", "LINK_ONLY")
                     if ok != should:
                         res.violations.append({"what": "commit type %s: load(%s) gives %r (record exists: %s)" % (member, p, lv, should), "input": case, "kf": None})
+        # ---- the store is configured again in the same process: same directories, same dbutils object, another commit
+        # type (a notebook cell that is re-run with another setting): the latest setting decides ----
+        for order in (["full", "links_only", "none"], ["none", "full", "links_only"], ["links_only", "none", "full"]):
+            d = mkd()
+            db = FakeDbutils(d)
+            for ci, ct in enumerate(order):
+                case = {"reconfigured": order[: ci + 1]}
+                res.evaluations += 1
+                res.nontrivial("reconfigure %s" % order[: ci + 1])
+                try:
+                    api.set_store("dbfs", "dbfs:/dds_internal", "dbfs:/dds_data", db, ct, None)
+                    key, p, v = "rsig%d" % ci, "/r/p%d" % ci, "text %d" % ci
+                    api._store_var.store_blob(key, v, None)
+                    api._store_var.sync_paths(OrderedDict([(p, key)]))
+                except BaseException as e:
+                    res.violations.append({"what": "reconfiguring the dbfs store with commit_type=%r fails: %s: %s" % (ct, type(e).__name__, str(e)[:80]),
+                                           "input": case, "kf": None})
+                    break
+                data = files_under(os.path.join(d, "dds_data")) if os.path.isdir(os.path.join(d, "dds_data")) else {}
+                has_copy = ("r/p%d" % ci) in data
+                has_record = ("_dds_meta/r/p%d" % ci) in data
+                want_copy, want_record = (ct == "full"), (ct in ("full", "links_only"))
+                if (has_copy, has_record) != (want_copy, want_record):
+                    res.violations.append({"what": "after set_store(..., commit_type=%r) on directories already configured in this process, a keep "
+                                                   "writes copy=%s record=%s (expected copy=%s record=%s)" % (ct, has_copy, has_record, want_copy, want_record),
+                                           "input": case, "kf": None})
         # ---- legacy references ----
         for legacy, v in (("dbfs.string", "texte é"), ("dbfs.bytes", b"\x00raw\xff"), ("dbfs.pickle", {"a": (1, 2)})):
             d = mkd()
